@@ -510,7 +510,10 @@ class EvalArm(Obligation):
                             if z3.is_true(pv): pv = True
                             elif z3.is_false(pv): pv = False
                         q = b_not(pv)
-                        r = e.check(*(extra + [q])) if q is not False else z3.unsat
+                        if getattr(self, 'small_domain', None) and q is not False and q is not True:
+                            r = z3.unknown          # small finite operand box: decided case by case below (the query over the whole box is slow and seed dependent)
+                        else:
+                            r = e.check(*(extra + [q])) if q is not False else z3.unsat
                         if q is True: r = z3.sat
                         if r == z3.unsat: res['discharged'] += 1; continue
                         if r == z3.unknown and getattr(self, 'small_domain', None):
@@ -519,9 +522,22 @@ class EvalArm(Obligation):
                             import itertools
                             dom = self.small_domain
                             verdict = z3.unsat; witness = None
+                            conj = [c for c in e.path_condition() + extra + [q] if is_sym(c)]
+                            if any(c is False for c in e.path_condition() + extra): conj = [z3.BoolVal(False)]
+                            s2 = z3.Solver(); s2.set('timeout', 10000)
                             for combo in itertools.product(*[range(lo, hi + 1) for _, lo, hi in dom]):
+                                subs = [(v_, z3.IntVal(x) if z3.is_int(v_) else z3.BitVecVal(x, v_.size())) for (v_, _, _), x in zip(dom, combo)]
                                 asg = [v_ == x for (v_, _, _), x in zip(dom, combo)]
-                                rr = e.check(*(extra + [q] + asg))
+                                fs = []
+                                dead = False
+                                for c in conj:
+                                    c2 = z3.simplify(z3.substitute(c, *subs))
+                                    if z3.is_false(c2): dead = True; break
+                                    if not z3.is_true(c2): fs.append(c2)
+                                if dead: continue
+                                if not fs: verdict = z3.sat; witness = asg; break
+                                s2.push(); s2.add(*fs); rr = s2.check(); s2.pop()
+                                e.stats.queries[str(rr)] += 1
                                 if rr == z3.sat: verdict = z3.sat; witness = asg; break
                                 if rr == z3.unknown: verdict = z3.unknown; break
                             res['case_splits'] = res.get('case_splits', 0) + 1
